@@ -150,12 +150,12 @@ class DocGen:
                 tb = self._new(w, "QToolBar", "widget")
                 for _ in range(rng.randint(0, 3)):
                     if self._budget():
-                        self._action_like(tb, allow_menu=False)
+                        self._action_like(tb, allow_menu=True, depth=depth + 1)
             if rng.random() < 0.4 and self._budget():
                 self._new(w, "QStatusBar", "widget")
             for _ in range(rng.randint(0, 3)):
                 if self._budget():
-                    self._action_like(w, allow_menu=False)
+                    self._action_like(w, allow_menu=True, depth=depth + 1)
             return
         if cls == "QTabWidget":
             for _ in range(rng.randint(1, 4)):
@@ -163,8 +163,8 @@ class DocGen:
                     page = self._new(w, rng.choice(("QWidget", "QWidget", "QFrame", "VfWidget")), "widget")
                     page.tab_page = True
                     self._grow_widget(page, depth + 1)
-                if rng.random() < 0.25 and self._budget():
-                    self._action_like(w, allow_menu=False)   # context-menu actions next to the pages
+                if rng.random() < 0.35 and self._budget():
+                    self._action_like(w, allow_menu=True, depth=depth)   # context-menu actions / sub menus next to the pages
             return
         if cls in ("QStackedWidget", "QToolBox", "QSplitter"):
             for _ in range(rng.randint(1, 3)):
@@ -772,6 +772,11 @@ class Doc:
                 if rng.random() < 0.05:
                     emit("// child")
                     nl(ind + 1)
+                if getattr(c, "prefix", None):
+                    # opt-in decoration in front of a child object (annotation, comment); set by the check that wants it
+                    emit(c.prefix)
+                    if c.prefix.endswith("\n"):
+                        emit("    " * (ind + 1))
                 pr_obj(c, ind + 1)
             nl(ind)
             emit("}")
